@@ -443,6 +443,10 @@ class Evaluator:
                 # so a decision that consults it forks and cannot equal the reference row
                 self.unknown_attrs.add(k)
                 return Opaque("unknown attribute " + k)
+            if isinstance(e.value, ast.Name) and e.value.id == "self" and "self" not in env and f.cls is not None:
+                m_ = f.cls.find_method(e.attr)
+                if m_ is not None and not m_.is_property:
+                    return ("selfmethod", m_)          # a method of the object used as a value (stored, passed on, called later)
             if isinstance(e.value, ast.Name) and e.value.id not in env:
                 try:
                     return self.ctx.p.fold(f.module, e)
@@ -675,6 +679,24 @@ class Evaluator:
         fn = e.func
         args = [self.expr(a, env, f, depth) for a in e.args]
         kws = {k.arg: self.expr(k.value, env, f, depth) for k in e.keywords}
+        if isinstance(fn, ast.Name) and fn.id in env:
+            # a local variable that holds a callable of the package: a method of the object, a bound method, a lambda
+            v = env[fn.id]
+            if isinstance(v, tuple) and len(v) == 2 and v[0] == "selfmethod":
+                selfenv = {k: x for k, x in env.items() if k.startswith("self.")}
+                try:
+                    return self.call(v[1], self._bind(v[1], args, kws, v[1].name), selfenv, depth + 1)
+                finally:
+                    env.update(selfenv)
+            if isinstance(v, tuple) and len(v) == 3 and v[0] == "bound":
+                return self.call(v[2], self._bind(v[2], args, kws, v[2].name), None, depth + 1, selfobj=(None if v[2].is_static else v[1]))
+            if isinstance(v, Closure) and not kws:
+                lam = v.node
+                names = [a.arg for a in lam.args.args]
+                if len(names) == len(args):
+                    sub = dict(v.env)
+                    sub.update(zip(names, args))
+                    return self.expr(lam.body, sub, v.f, depth + 1)
         if isinstance(fn, ast.Name):
             if fn.id == "len" and args and isinstance(args[0], (list, tuple, str, dict, set)):
                 return len(args[0])
@@ -927,6 +949,8 @@ class Evaluator:
             if t.vararg:
                 bound["*"] = tuple(star)
             selfenv = {k: v for k, v in env.items() if k.startswith("self.")}
+            if cs.kind == "self" and "self" in env and not isinstance(env["self"], AbsObj):
+                selfenv["self"] = env["self"]          # the object itself, when the driver named it (passed on as a value)
             try:
                 return self.call(t, bound, selfenv, depth + 1)
             finally:
